@@ -1286,10 +1286,13 @@ func parseFloatElement(str string, base int, bitSize int, result []byte) []byte 
 		if math.IsInf(float64(elem32), 0) {
 			panic(fmt.Errorf("float element %v is too big for float16", str))
 		}
-		if elem32 == 0 && !isFloatZero(str) {
+		elem16 := uint16(math.Float32bits(elem32) >> 16)
+		// Check what is actually stored: a value can be nonzero as a float32
+		// and still have nothing left in the 16 bits that are kept.
+		if elem16&0x7fff == 0 && !isFloatZero(str) {
 			panic(fmt.Errorf("float element %v is too small for float16", str))
 		}
-		return binary.LittleEndian.AppendUint16(result, uint16(math.Float32bits(elem32)>>16))
+		return binary.LittleEndian.AppendUint16(result, elem16)
 	case 32:
 		elem32 := float32(element)
 		if math.IsInf(float64(elem32), 0) {
